@@ -170,14 +170,14 @@ def generated(seed, idx):
             out.append({"programs": progs, "fs": fs, "tape": [], "faults": faults})
         return fam, out
     if fam == "C16":
-        sc = c16.PROP.generate(derive(seed, "C10-C16"), sub, "quick")
+        sc = c16.PROP.generate(derive(seed, "C10-C16"), sub + c16.N_NAT["quick"], "quick")
         ir = dict(sc["ir"])
         n = 120
         ir["n"] = n
         ir["spikes"] = [[w, min(m, 500), kd] for w, m, kd in ir["spikes"]]
         return fam, [{"programs": [{"kind": "snippet", "source": c16.render(ir, n)}], "tape": [], "faults": sc["faults"],
                       "fs": {"c16mod": {"source": c16.C16MOD, "reads": []}, "c16bad": {"source": c16.C16BAD, "reads": []}}, "config": {"max_events": 64}}]
-    sc = c01.PROP.generate(derive(seed, "C10-C01"), sub, "quick")
+    sc = c01.PROP.generate(derive(seed, "C10-C01"), sub + c01.PROP.n_foreign("quick"), "quick")      # (C01's first indices are corpus scripts and NAT programs: both are families of their own here)
     fs = {"gcm": {"source": c01.GCM, "reads": []}}
     for g_ in sc["ir"]["gadgets"]:
         if g_[0] == "modfail":
